@@ -29,6 +29,11 @@ func (k msgServer) CreateDappProposal(goCtx context.Context, msg *types.MsgCreat
 	properties := k.keeper.gk.GetNetworkProperties(ctx)
 	addr := sdk.MustAccAddressFromBech32(msg.Sender)
 
+	// GetDapp reports a dapp with an empty name as not existing
+	if msg.Dapp.Name == "" {
+		return nil, types.ErrDappDoesNotExist
+	}
+
 	// permission check PermCreateDappProposalWithoutBond
 	isAllowed := k.keeper.CheckIfAllowedPermission(ctx, addr, govtypes.PermCreateDappProposalWithoutBond)
 	if !isAllowed {
